@@ -95,3 +95,694 @@ Proof.
         apply pcmp_prefix_lt.
 Qed.
 
+(* ------------------------------------------------------------------ *)
+(* insert                                                               *)
+(* ------------------------------------------------------------------ *)
+Definition insert_post (p : path) (k v : bytes) (t t' : tree) : Prop :=
+  wf_at p t' /\
+  (forall b, is_prefix (p ++ [b]) (bits_of k) -> starts p b t -> starts p b t') /\
+  In (k, v) (contents t') /\
+  (forall e, In e (contents t') -> e = (k, v) \/ In e (contents t)) /\
+  (forall e, In e (contents t) -> fst e <> k -> In e (contents t')) /\
+  present t' = 1%nat.
+
+Local Ltac inapp :=
+  repeat (cbn [contents lf_contents In app fst snd] in *; rewrite ?in_app_iff in * ).
+
+Lemma wf_node_intro p lbl lf l r :
+  match lf with None => True | Some (k, _) => valid_bytes k /\ bits_of k = p ++ lbl end ->
+  wf_at (p ++ lbl) l -> wf_at (p ++ lbl) r ->
+  starts (p ++ lbl) false l -> starts (p ++ lbl) true r ->
+  (2 <= present_lf lf + present l + present r)%nat -> wf_at p (Node lbl lf l r).
+Proof. intros. cbn [wf_at]. auto 10. Qed.
+
+Local Ltac fin :=
+  repeat split; eauto; try lia;
+  try solve [apply is_prefix_app];
+  try solve [rewrite app_assoc; apply is_prefix_app];
+  try solve [intros ? ? ? ; eauto];
+  try solve [intros ? ?; inapp; intuition (subst; auto)];
+  try solve [intros ? ? ?; inapp; intuition (subst; auto)].
+
+Lemma insert_spec t : forall p k v,
+  valid_bytes k -> is_prefix p (bits_of k) -> wf_at p t ->
+  insert_post p k v t (insert (length p) k v t).
+Proof.
+  induction t as [|k' v'|lbl lf l IHl r IHr]; intros p k v Hvk [kr Hk] Hwf.
+  - (* Nil *)
+    cbn [insert]. unfold insert_post. cbn. repeat split; auto.
+    + now exists kr.
+    + intros e [<-|[]]. auto.
+  - (* Leaf *)
+    cbn [insert]. destruct Hwf as [Hvk' [kr' Hk']].
+    destruct (bytes_eqb k' k) eqn:E.
+    + apply bytes_eqb_eq in E. subst k'. unfold insert_post. cbn. repeat split; auto.
+      * now exists kr.
+      * intros e [<-|[]]. auto.
+      * intros [k1 v1] [[= <- <-]|[]] Hn. cbn in Hn. congruence.
+    + apply bytes_eqb_neq in E.
+      assert (kr' <> kr) as Hne.
+      { intros ->. apply E. apply bits_of_inj; auto. congruence. }
+      rewrite Hk, Hk', !skipn_len_app.
+      destruct (lcp_split kr' kr) as (c & a' & b' & -> & -> & Hl & Hd).
+      rewrite <- Hl. rewrite firstn_len_app, len_app_eqb_nil, len_app_eqb_nil.
+      assert (forall x s, is_prefix ((p ++ c) ++ [x]) (p ++ c ++ x :: s)) as Hpx.
+      { intros x s. exists s. now rewrite <- !app_assoc. }
+      assert (forall b, is_prefix (p ++ [b]) (p ++ c ++ b') -> is_prefix (p ++ [b]) (p ++ c ++ a') ->
+                 exists s, c = b :: s) as Hst.
+      { intros b [s1 H1] [s2 H2]. rewrite <- app_assoc in H1, H2.
+        apply app_inv_head in H1, H2. destruct c as [|x c].
+        - cbn in H1, H2. subst a' b'. exfalso. now apply Hd.
+        - injection H1 as -> _. eauto. }
+      unfold insert_post.
+      destruct b' as [|y b'].
+      * (* inserted key is a prefix of the existing one *)
+        destruct a' as [|x a']; [exfalso; apply Hne; reflexivity|].
+        rewrite bit_app_mid.
+        assert (wf_at (p ++ c) (Leaf k' v') /\ starts (p ++ c) x (Leaf k' v')) as [W S].
+        { cbn. rewrite Hk'. split; [split; auto|].
+          - exists (x :: a'). now rewrite app_assoc.
+          - apply Hpx. }
+        rewrite app_nil_r in *.
+        destruct x; cbn [wf_at starts present present_lf]; rewrite ?Hk, ?Hk'; inapp; fin.
+      * destruct a' as [|x a'].
+        -- (* existing key is a prefix of the inserted one *)
+           rewrite bit_app_mid.
+           assert (wf_at (p ++ c) (Leaf k v) /\ starts (p ++ c) y (Leaf k v)) as [W S].
+           { cbn. rewrite Hk. split; [split; auto|].
+             - exists (y :: b'). now rewrite app_assoc.
+             - apply Hpx. }
+           rewrite app_nil_r in *.
+           destruct y; cbn [wf_at starts present present_lf]; rewrite ?Hk, ?Hk'; inapp; fin.
+        -- (* the keys diverge *)
+           rewrite bit_app_mid.
+           assert (wf_at (p ++ c) (Leaf k v) /\ starts (p ++ c) y (Leaf k v)) as [W S].
+           { cbn. rewrite Hk. split; [split; auto|].
+             - exists (y :: b'). now rewrite app_assoc.
+             - apply Hpx. }
+           assert (wf_at (p ++ c) (Leaf k' v') /\ starts (p ++ c) x (Leaf k' v')) as [W' S'].
+           { cbn. rewrite Hk'. split; [split; auto|].
+             - exists (x :: a'). now rewrite app_assoc.
+             - apply Hpx. }
+           destruct y, x; try (exfalso; now apply Hd);
+             cbn [wf_at starts present present_lf]; rewrite ?Hk, ?Hk'; inapp; fin.
+  - (* Node *)
+    cbn [insert]. pose proof Hwf as Hwf0.
+    cbn [wf_at] in Hwf. destruct Hwf as (Hlf & Hl & Hr & Hsl & Hsr & Hc).
+    rewrite Hk, skipn_len_app.
+    destruct (lcp_split lbl kr) as (c & a' & b' & -> & -> & Hlen & Hd).
+    rewrite <- Hlen. rewrite len_eqb_app_nil.
+    destruct a' as [|x a'].
+    + (* the label matched *)
+      rewrite app_nil_r in *.
+      rewrite <- app_length. rewrite app_assoc. rewrite len_app_eqb_nil.
+      destruct b' as [|y b'].
+      * (* key ends here *)
+        unfold insert_post. cbn [wf_at starts present present_lf]. rewrite Hk, app_nil_r. inapp.
+        repeat split; auto; try lia.
+        -- destruct lf; cbn [present_lf] in Hc; lia.
+        -- intros e He. inapp. intuition.
+        -- intros e He Hn. inapp. destruct He as [He|He]; [|auto].
+           destruct lf as [[k1 v1]|]; cbn in He; [|tauto]. destruct He as [<-|[]].
+           cbn in Hn. destruct Hlf as [V1 B1]. exfalso. apply Hn.
+           apply bits_of_inj; auto. rewrite B1, Hk. now rewrite app_nil_r.
+      * rewrite bit_app_mid.
+        assert (is_prefix (p ++ c) (bits_of k)) as Hq.
+        { rewrite Hk. exists (y :: b'). now rewrite app_assoc. }
+        assert (is_prefix ((p ++ c) ++ [y]) (bits_of k)) as Hqy.
+        { rewrite Hk. exists b'. now rewrite <- !app_assoc. }
+        destruct y.
+        -- destruct (IHr (p ++ c) k v Hvk Hq Hr) as (W & S & I1 & I2 & I3 & P).
+           unfold insert_post. cbn [wf_at starts present present_lf]. inapp.
+           repeat split; auto; try lia.
+           ++ rewrite P. assert (present r <= 1)%nat by (destruct r; cbn; lia). lia.
+           ++ intros e He. inapp. destruct He as [He|[He|He]]; auto. destruct (I2 _ He); auto.
+           ++ intros e He Hn. inapp. destruct He as [He|[He|He]]; auto.
+        -- destruct (IHl (p ++ c) k v Hvk Hq Hl) as (W & S & I1 & I2 & I3 & P).
+           unfold insert_post. cbn [wf_at starts present present_lf]. inapp.
+           repeat split; auto; try lia.
+           ++ rewrite P. assert (present l <= 1)%nat by (destruct l; cbn; lia). lia.
+           ++ intros e He. inapp. destruct He as [He|[He|He]]; auto. destruct (I2 _ He); auto.
+           ++ intros e He Hn. inapp. destruct He as [He|[He|He]]; auto.
+    + (* split the edge *)
+      rewrite firstn_len_app, skipn_len_app, len_app_eqb_nil.
+      assert (wf_at (p ++ c) (Node (x :: a') lf l r)) as Wold.
+      { cbn [wf_at]. rewrite <- app_assoc. repeat split; auto. }
+      assert (forall b, (exists s, c ++ x :: a' = b :: s) -> is_prefix (p ++ [b]) (p ++ c ++ b') ->
+                 exists s, c = b :: s) as Hst.
+      { intros b [s1 H1] [s2 H2]. rewrite <- app_assoc in H2.
+        apply app_inv_head in H2. destruct c as [|z c].
+        - cbn in H1, H2. injection H1 as -> _. destruct b' as [|y b']; [discriminate|].
+          injection H2 as -> _. exfalso. now apply Hd.
+        - injection H1 as -> _. eauto. }
+      unfold insert_post. rewrite ?Hk. change (bit (x :: a') 0) with x.
+      assert (starts (p ++ c) x (Node (x :: a') lf l r)) as Sold by (cbn; eauto).
+      destruct b' as [|y b'].
+      * rewrite app_nil_r in *.
+        destruct x; cbv iota;
+          (split; [apply wf_node_intro; cbn [present present_lf starts]; rewrite ?Hk; auto; lia|]);
+          cbn [starts present]; inapp; fin.
+      * rewrite bit_app_mid.
+        assert (wf_at (p ++ c) (Leaf k v) /\ starts (p ++ c) y (Leaf k v)) as [W S].
+        { cbn. rewrite Hk. split; [split; auto|].
+          - exists (y :: b'). now rewrite app_assoc.
+          - exists b'. now rewrite <- !app_assoc. }
+        destruct y, x; try (exfalso; now apply Hd); cbv iota;
+          (split; [apply wf_node_intro; cbn [present present_lf]; rewrite ?Hk; auto; lia|]);
+          cbn [starts present]; inapp; fin.
+Qed.
+(* ------------------------------------------------------------------ *)
+(* remove                                                               *)
+(* ------------------------------------------------------------------ *)
+Definition ctree (x : tree * bool * option bytes) : tree := fst (fst x).
+Definition cflag (x : tree * bool * option bytes) : bool := snd (fst x).
+Definition cex (x : tree * bool * option bytes) : option bytes := snd x.
+
+Lemma collapse_contents lbl lf l r ch ex :
+  contents (ctree (collapse lbl lf l r ch ex)) = lf_contents lf ++ contents l ++ contents r.
+Proof.
+  unfold collapse, ctree.
+  destruct lf as [[k0 v0]|], l as [|kl vl|ll lfl l1 l2], r as [|kr vr|lr lfr r1 r2];
+    cbn [fst snd contents lf_contents app]; rewrite ?app_nil_r; reflexivity.
+Qed.
+
+Lemma collapse_ex lbl lf l r ch ex : cex (collapse lbl lf l r ch ex) = ex.
+Proof.
+  unfold collapse, cex.
+  destruct lf as [[k0 v0]|], l as [|kl vl|ll lfl l1 l2], r as [|kr vr|lr lfr r1 r2]; reflexivity.
+Qed.
+
+Lemma collapse_flag_true lbl lf l r ex : cflag (collapse lbl lf l r true ex) = true.
+Proof.
+  unfold collapse, cflag.
+  destruct lf as [[k0 v0]|], l as [|kl vl|ll lfl l1 l2], r as [|kr vr|lr lfr r1 r2]; reflexivity.
+Qed.
+
+Lemma collapse_canon lbl lf l r ch ex :
+  (2 <= present_lf lf + present l + present r)%nat ->
+  collapse lbl lf l r ch ex = (Node lbl lf l r, ch, ex).
+Proof.
+  unfold collapse.
+  destruct lf as [[k0 v0]|], l as [|kl vl|ll lfl l1 l2], r as [|kr vr|lr lfr r1 r2];
+    cbn [present present_lf]; intros H; try lia; reflexivity.
+Qed.
+
+Lemma wf_at_weaken_leaf p s k v : wf_at (p ++ s) (Leaf k v) -> wf_at p (Leaf k v).
+Proof.
+  cbn. intros [Hv Hp]. split; auto. eapply is_prefix_trans; [apply is_prefix_app|exact Hp].
+Qed.
+Lemma wf_at_merge p lbl lbl' lf l r :
+  wf_at (p ++ lbl) (Node lbl' lf l r) -> wf_at p (Node (lbl ++ lbl') lf l r).
+Proof. cbn [wf_at]. now rewrite app_assoc. Qed.
+
+Lemma collapse_wf p lbl lf l r ch ex :
+  match lf with None => True | Some (k, _) => valid_bytes k /\ bits_of k = p ++ lbl end ->
+  wf_at (p ++ lbl) l -> wf_at (p ++ lbl) r ->
+  starts (p ++ lbl) false l -> starts (p ++ lbl) true r ->
+  wf_at p (ctree (collapse lbl lf l r ch ex)).
+Proof.
+  intros Hlf Hl Hr Hsl Hsr. unfold collapse, ctree.
+  destruct lf as [[k0 v0]|], l as [|kl vl|ll lfl l1 l2], r as [|kr vr|lr lfr r1 r2];
+    cbn [fst snd];
+    try (apply wf_node_intro; cbn [present present_lf]; auto; lia);
+    try (eapply wf_at_weaken_leaf; eassumption);
+    try (apply wf_at_merge; assumption);
+    try exact I.
+  destruct Hlf as [Hv Hb]. cbn. split; auto. rewrite Hb. apply is_prefix_app.
+Qed.
+
+Lemma collapse_starts p b lbl lf l r ch ex :
+  wf_at p (Node lbl lf l r) ->
+  (exists s, lbl = b :: s) ->
+  forall lf' l' r',
+    (forall e, In e (lf_contents lf') -> In e (lf_contents lf)) ->
+    (forall e, In e (contents l') -> In e (contents l)) ->
+    (forall e, In e (contents r') -> In e (contents r)) ->
+    starts p b (ctree (collapse lbl lf' l' r' ch ex)).
+Proof.
+  intros Hwf [s ->] lf' l' r' Hif Hil Hir.
+  assert (forall k v, In (k, v) (lf_contents lf' ++ contents l' ++ contents r') ->
+            is_prefix (p ++ [b]) (bits_of k)) as Hk.
+  { intros k v Hin. eapply is_prefix_trans; [|eapply (wf_node_keys _ _ _ _ _ k v Hwf)].
+    - exists s. now rewrite <- app_assoc.
+    - cbn [contents]. rewrite !in_app_iff in *. intuition. }
+  unfold collapse, ctree.
+  destruct lf' as [[k0 v0]|], l' as [|kl vl|ll lfl l1 l2], r' as [|kr vr|lr lfr r1 r2];
+    cbn [fst snd starts]; eauto;
+    try solve [cbn; eauto];
+    try solve [eapply Hk; cbn [lf_contents contents app]; rewrite ?in_app_iff; cbn; eauto 6].
+Qed.
+
+Lemma node_sides p lbl lf l r :
+  wf_at p (Node lbl lf l r) -> forall k v,
+  (In (k, v) (lf_contents lf) -> length (bits_of k) = length (p ++ lbl)) /\
+  (In (k, v) (contents l) ->
+     (length (p ++ lbl) < length (bits_of k))%nat /\ bit (bits_of k) (length (p ++ lbl)) = false) /\
+  (In (k, v) (contents r) ->
+     (length (p ++ lbl) < length (bits_of k))%nat /\ bit (bits_of k) (length (p ++ lbl)) = true).
+Proof.
+  intros Hwf k v. cbn [wf_at] in Hwf. destruct Hwf as (Hlf & Hl & Hr & Hsl & Hsr & Hc).
+  split; [|split].
+  - destruct lf as [[k0 v0]|]; cbn; [|tauto]. intros [[= <- <-]|[]]. destruct Hlf as [_ ->]. reflexivity.
+  - intros H. pose proof (starts_keys _ _ _ _ _ Hl Hsl H) as Hp. split.
+    + apply is_prefix_len in Hp. rewrite app_length in Hp. cbn in Hp. lia.
+    + now apply is_prefix_bit.
+  - intros H. pose proof (starts_keys _ _ _ _ _ Hr Hsr H) as Hp. split.
+    + apply is_prefix_len in Hp. rewrite app_length in Hp. cbn in Hp. lia.
+    + now apply is_prefix_bit.
+Qed.
+
+Definition remove_post (p : path) (k : bytes) (t : tree) (x : tree * bool * option bytes) : Prop :=
+  wf_at p (ctree x) /\
+  (forall b, starts p b t -> starts p b (ctree x)) /\
+  (forall e, In e (contents (ctree x)) -> In e (contents t) /\ fst e <> k) /\
+  (forall e, In e (contents t) -> fst e <> k -> In e (contents (ctree x))) /\
+  match cex x with Some v => In (k, v) (contents t) | None => forall v, ~ In (k, v) (contents t) end /\
+  cflag x = (match cex x with Some _ => true | None => false end) /\
+  (cflag x = false -> ctree x = t).
+
+Lemma remove_post_unchanged p k t :
+  wf_at p t -> (forall v, ~ In (k, v) (contents t)) -> remove_post p k t (t, false, None).
+Proof.
+  unfold remove_post; cbn [ctree cflag cex fst snd]. intros W Hn.
+  split; [exact W|]. split; [auto|]. split; [|split; [auto|split; [exact Hn|auto]]].
+  intros [k1 v1] He. split; auto. cbn. intros ->. eapply Hn; eauto.
+Qed.
+
+Lemma remove_spec t : forall p k, wf_at p t -> remove_post p k t (remove (length p) k t).
+Proof.
+  induction t as [|k' v'|lbl lf l IHl r IHr]; intros p k Hwf.
+  - cbn [remove]. apply remove_post_unchanged; auto.
+  - cbn [remove]. destruct (bytes_eqb k' k) eqn:E.
+    + apply bytes_eqb_eq in E. subst k'. unfold remove_post; cbn. repeat split; auto; try tauto; try discriminate.
+      intros e [<-|[]] Hn. cbn in Hn. congruence.
+    + apply bytes_eqb_neq in E. apply remove_post_unchanged; auto.
+      intros v [[= -> _]|[]]. congruence.
+  - cbn [remove]. pose proof Hwf as Hwf0.
+    cbn [wf_at] in Hwf. destruct Hwf as (Hlf & Hl & Hr & Hsl & Hsr & Hc).
+    pose proof (node_sides _ _ _ _ _ Hwf0) as Hside.
+    rewrite <- app_length.
+    destruct (length (bits_of k) <? length (p ++ lbl))%nat eqn:E1.
+    + apply Nat.ltb_lt in E1. apply remove_post_unchanged; auto.
+      intros v Hin. pose proof (wf_node_keys _ _ _ _ _ _ _ Hwf0 Hin) as Hp.
+      apply is_prefix_len in Hp. lia.
+    + apply Nat.ltb_ge in E1.
+      destruct (length (bits_of k) =? length (p ++ lbl))%nat eqn:E2.
+      * apply Nat.eqb_eq in E2.
+        assert (forall v, ~ In (k, v) (contents l ++ contents r)) as Hnot.
+        { intros v Hin. apply in_app_or in Hin as [Hin|Hin].
+          - apply (Hside k v) in Hin. lia.
+          - apply (Hside k v) in Hin. lia. }
+        destruct lf as [[k0 v0]|].
+        -- destruct (bytes_eqb k0 k) eqn:E3.
+           ++ apply bytes_eqb_eq in E3. subst k0. unfold remove_post.
+              rewrite collapse_contents, collapse_ex, collapse_flag_true.
+              split; [apply collapse_wf; auto|].
+              split; [intros b Hs; eapply collapse_starts; eauto; cbn; tauto|].
+              cbn [contents lf_contents app In]. repeat split; auto.
+              ** intros <-. destruct e as [k1 v1]. eapply Hnot; eauto.
+              ** intros e [<-|He] Hn; [cbn in Hn; congruence|auto].
+              ** discriminate.
+           ++ apply bytes_eqb_neq in E3. rewrite collapse_canon by exact Hc.
+              apply remove_post_unchanged; auto.
+              intros v Hin. cbn in Hin. destruct Hin as [[= -> ->]|H]; [congruence|].
+              eapply Hnot; eauto.
+        -- rewrite collapse_canon by exact Hc.
+           apply remove_post_unchanged; auto.
+      * apply Nat.eqb_neq in E2.
+        assert (length (p ++ lbl) < length (bits_of k))%nat as E3 by lia.
+        destruct (bit (bits_of k) (length (p ++ lbl))) eqn:Eb.
+        -- specialize (IHr (p ++ lbl) k Hr). destruct (remove (length (p ++ lbl)) k r) as [[r' c] e].
+           destruct IHr as (W & S & I2 & I3 & X & F & U). cbn [ctree cflag cex fst snd] in *.
+           destruct c.
+           ++ destruct e as [v|]; [|discriminate]. unfold remove_post.
+              rewrite collapse_contents, collapse_ex, collapse_flag_true.
+              split; [apply collapse_wf; auto|].
+              split; [intros b Hs; eapply collapse_starts; eauto; intros x Hx; apply I2; auto|].
+              cbn [contents]. split; [|split; [|split; [|split; [reflexivity|discriminate]]]].
+              ** intros [k1 v1] Hin. rewrite !in_app_iff in *. destruct Hin as [Hin|[Hin|Hin]].
+                 --- split; auto. cbn. intros ->. apply (Hside k v1) in Hin. lia.
+                 --- split; auto. cbn. intros ->. apply (Hside k v1) in Hin. destruct Hin; congruence.
+                 --- apply I2 in Hin. tauto.
+              ** intros x Hin Hn. rewrite !in_app_iff in *. intuition.
+              ** rewrite !in_app_iff. auto.
+           ++ destruct e as [v|]; [discriminate|]. rewrite (U eq_refl).
+              rewrite collapse_canon by exact Hc. apply remove_post_unchanged; auto.
+              intros v Hin. cbn [contents] in Hin. rewrite !in_app_iff in Hin. destruct Hin as [Hin|[Hin|Hin]].
+              ** apply (Hside k v) in Hin. lia.
+              ** apply (Hside k v) in Hin. destruct Hin; congruence.
+              ** eapply X; eauto.
+        -- specialize (IHl (p ++ lbl) k Hl). destruct (remove (length (p ++ lbl)) k l) as [[l' c] e].
+           destruct IHl as (W & S & I2 & I3 & X & F & U). cbn [ctree cflag cex fst snd] in *.
+           destruct c.
+           ++ destruct e as [v|]; [|discriminate]. unfold remove_post.
+              rewrite collapse_contents, collapse_ex, collapse_flag_true.
+              split; [apply collapse_wf; auto|].
+              split; [intros b Hs; eapply collapse_starts; eauto; intros x Hx; apply I2; auto|].
+              cbn [contents]. split; [|split; [|split; [|split; [reflexivity|discriminate]]]].
+              ** intros [k1 v1] Hin. rewrite !in_app_iff in *. destruct Hin as [Hin|[Hin|Hin]].
+                 --- split; auto. cbn. intros ->. apply (Hside k v1) in Hin. lia.
+                 --- apply I2 in Hin. tauto.
+                 --- split; auto. cbn. intros ->. apply (Hside k v1) in Hin. destruct Hin; congruence.
+              ** intros x Hin Hn. rewrite !in_app_iff in *. intuition.
+              ** rewrite !in_app_iff. auto.
+           ++ destruct e as [v|]; [discriminate|]. rewrite (U eq_refl).
+              rewrite collapse_canon by exact Hc. apply remove_post_unchanged; auto.
+              intros v Hin. cbn [contents] in Hin. rewrite !in_app_iff in Hin. destruct Hin as [Hin|[Hin|Hin]].
+              ** apply (Hside k v) in Hin. lia.
+              ** eapply X; eauto.
+              ** apply (Hside k v) in Hin. destruct Hin; congruence.
+Qed.
+(* ------------------------------------------------------------------ *)
+(* lookup                                                               *)
+(* ------------------------------------------------------------------ *)
+Lemma lookup_spec t : forall p k, wf_at p t ->
+  match lookup (length p) k t with
+  | Some v => In (k, v) (contents t)
+  | None => forall v, ~ In (k, v) (contents t)
+  end.
+Proof.
+  induction t as [|k' v'|lbl lf l IHl r IHr]; intros p k Hwf.
+  - cbn. auto.
+  - cbn [lookup]. destruct (bytes_eqb k' k) eqn:E.
+    + apply bytes_eqb_eq in E. subst. cbn. auto.
+    + apply bytes_eqb_neq in E. intros v [[= -> _]|[]]. congruence.
+  - cbn [lookup]. pose proof Hwf as Hwf0.
+    cbn [wf_at] in Hwf. destruct Hwf as (Hlf & Hl & Hr & Hsl & Hsr & Hc).
+    pose proof (node_sides _ _ _ _ _ Hwf0) as Hside.
+    rewrite <- app_length.
+    destruct (length (bits_of k) =? length (p ++ lbl))%nat eqn:E2.
+    + apply Nat.eqb_eq in E2.
+      assert (forall v, ~ In (k, v) (contents l ++ contents r)) as Hnot.
+      { intros v Hin. apply in_app_or in Hin as [Hin|Hin].
+        - apply (Hside k v) in Hin. lia.
+        - apply (Hside k v) in Hin. lia. }
+      destruct lf as [[k0 v0]|].
+      * destruct (bytes_eqb k0 k) eqn:E3.
+        -- apply bytes_eqb_eq in E3. subst. cbn. auto.
+        -- apply bytes_eqb_neq in E3. intros v Hin. cbn in Hin.
+           destruct Hin as [[= -> ->]|H]; [congruence|]. eapply Hnot; eauto.
+      * intros v Hin. cbn in Hin. eapply Hnot; eauto.
+    + apply Nat.eqb_neq in E2.
+      destruct (length (bits_of k) <? length (p ++ lbl))%nat eqn:E1.
+      * apply Nat.ltb_lt in E1. intros v Hin.
+        pose proof (wf_node_keys _ _ _ _ _ _ _ Hwf0 Hin) as Hp. apply is_prefix_len in Hp. lia.
+      * apply Nat.ltb_ge in E1.
+        destruct (bit (bits_of k) (length (p ++ lbl))) eqn:Eb.
+        -- specialize (IHr (p ++ lbl) k Hr). destruct (lookup (length (p ++ lbl)) k r) as [v|].
+           ++ cbn [contents]. rewrite !in_app_iff. auto.
+           ++ intros v Hin. cbn [contents] in Hin. rewrite !in_app_iff in Hin. destruct Hin as [Hin|[Hin|Hin]].
+              ** apply (Hside k v) in Hin. lia.
+              ** apply (Hside k v) in Hin. destruct Hin; congruence.
+              ** eapply IHr; eauto.
+        -- specialize (IHl (p ++ lbl) k Hl). destruct (lookup (length (p ++ lbl)) k l) as [v|].
+           ++ cbn [contents]. rewrite !in_app_iff. auto.
+           ++ intros v Hin. cbn [contents] in Hin. rewrite !in_app_iff in Hin. destruct Hin as [Hin|[Hin|Hin]].
+              ** apply (Hside k v) in Hin. lia.
+              ** eapply IHl; eauto.
+              ** apply (Hside k v) in Hin. destruct Hin; congruence.
+Qed.
+
+(* ------------------------------------------------------------------ *)
+(* the shape is determined by the contents                              *)
+(* ------------------------------------------------------------------ *)
+Lemma filter_all {A} (f : A -> bool) l : (forall x, In x l -> f x = true) -> filter f l = l.
+Proof.
+  induction l as [|x l IH]; cbn; intros H; [reflexivity|].
+  rewrite (H x (or_introl eq_refl)). f_equal. apply IH. intros; apply H; auto.
+Qed.
+Lemma filter_none {A} (f : A -> bool) l : (forall x, In x l -> f x = false) -> filter f l = [].
+Proof.
+  induction l as [|x l IH]; cbn; intros H; [reflexivity|].
+  rewrite (H x (or_introl eq_refl)). apply IH. intros; apply H; auto.
+Qed.
+
+(* classes of a key relative to a branching point of depth n *)
+Definition cls (n : nat) (e : bytes * bytes) : nat :=
+  let b := bits_of (fst e) in
+  if (length b =? n)%nat then 0%nat else if bit b n then 2%nat else 1%nat.
+
+Lemma three_way_split {A} (f : A -> nat) a0 a1 a2 b0 b1 b2 :
+  (forall x, In x a0 -> f x = 0%nat) -> (forall x, In x a1 -> f x = 1%nat) -> (forall x, In x a2 -> f x = 2%nat) ->
+  (forall x, In x b0 -> f x = 0%nat) -> (forall x, In x b1 -> f x = 1%nat) -> (forall x, In x b2 -> f x = 2%nat) ->
+  a0 ++ a1 ++ a2 = b0 ++ b1 ++ b2 -> a0 = b0 /\ a1 = b1 /\ a2 = b2.
+Proof.
+  intros A0 A1 A2 B0 B1 B2 E.
+  assert (forall n, filter (fun x => Nat.eqb (f x) n) (a0 ++ a1 ++ a2) =
+                    filter (fun x => Nat.eqb (f x) n) (b0 ++ b1 ++ b2)) as F by (intros; now rewrite E).
+  repeat split.
+  - specialize (F 0%nat). rewrite !filter_app in F.
+    rewrite (filter_all _ a0), (filter_none _ a1), (filter_none _ a2),
+            (filter_all _ b0), (filter_none _ b1), (filter_none _ b2) in F;
+      try (intros x Hx; first [rewrite (A0 x Hx)|rewrite (A1 x Hx)|rewrite (A2 x Hx)|rewrite (B0 x Hx)|rewrite (B1 x Hx)|rewrite (B2 x Hx)]; reflexivity).
+    now rewrite !app_nil_r in F.
+  - specialize (F 1%nat). rewrite !filter_app in F.
+    rewrite (filter_none _ a0), (filter_all _ a1), (filter_none _ a2),
+            (filter_none _ b0), (filter_all _ b1), (filter_none _ b2) in F;
+      try (intros x Hx; first [rewrite (A0 x Hx)|rewrite (A1 x Hx)|rewrite (A2 x Hx)|rewrite (B0 x Hx)|rewrite (B1 x Hx)|rewrite (B2 x Hx)]; reflexivity).
+    now rewrite !app_nil_r in F.
+  - specialize (F 2%nat). rewrite !filter_app in F.
+    rewrite (filter_none _ a0), (filter_none _ a1), (filter_all _ a2),
+            (filter_none _ b0), (filter_none _ b1), (filter_all _ b2) in F;
+      try (intros x Hx; first [rewrite (A0 x Hx)|rewrite (A1 x Hx)|rewrite (A2 x Hx)|rewrite (B0 x Hx)|rewrite (B1 x Hx)|rewrite (B2 x Hx)]; reflexivity).
+    exact F.
+Qed.
+
+Lemma node_cls p lbl lf l r :
+  wf_at p (Node lbl lf l r) ->
+  (forall x, In x (lf_contents lf) -> cls (length (p ++ lbl)) x = 0%nat) /\
+  (forall x, In x (contents l) -> cls (length (p ++ lbl)) x = 1%nat) /\
+  (forall x, In x (contents r) -> cls (length (p ++ lbl)) x = 2%nat).
+Proof.
+  intros Hwf. pose proof (node_sides _ _ _ _ _ Hwf) as Hs. unfold cls.
+  split; [|split]; intros [k v] Hin; cbn [fst]; apply (Hs k v) in Hin.
+  - rewrite Hin, Nat.eqb_refl. reflexivity.
+  - destruct Hin as [Hlen Hb]. rewrite Hb. destruct (Nat.eqb_spec (length (bits_of k)) (length (p ++ lbl))); [lia|reflexivity].
+  - destruct Hin as [Hlen Hb]. rewrite Hb. destruct (Nat.eqb_spec (length (bits_of k)) (length (p ++ lbl))); [lia|reflexivity].
+Qed.
+
+(* a branching point: either a key ends exactly there or two keys continue differently *)
+Lemma node_branching p lbl lf l r :
+  wf_at p (Node lbl lf l r) ->
+  let q := p ++ lbl in
+  (exists k v, In (k, v) (contents (Node lbl lf l r)) /\ bits_of k = q) \/
+  (exists k1 v1 k2 v2, In (k1, v1) (contents (Node lbl lf l r)) /\ In (k2, v2) (contents (Node lbl lf l r)) /\
+      is_prefix (q ++ [false]) (bits_of k1) /\ is_prefix (q ++ [true]) (bits_of k2)).
+Proof.
+  intros Hwf q. pose proof Hwf as Hwf0.
+  cbn [wf_at] in Hwf. destruct Hwf as (Hlf & Hl & Hr & Hsl & Hsr & Hc).
+  destruct lf as [[k0 v0]|].
+  - left. exists k0, v0. cbn. split; auto. apply Hlf.
+  - right. cbn [present_lf] in Hc.
+    pose proof (wf_present_len _ _ Hl) as Ll. pose proof (wf_present_len _ _ Hr) as Lr.
+    assert (present l = 1%nat /\ present r = 1%nat) as [Pl Pr] by (destruct l, r; cbn in *; lia).
+    cbn [contents lf_contents app].
+    assert (exists k1 v1, In (k1, v1) (contents l)) as (k1 & v1 & H1).
+    { destruct (contents l) as [|[k1 v1] cl]; [cbn in Ll; lia|]. exists k1, v1. cbn; auto. }
+    assert (exists k2 v2, In (k2, v2) (contents r)) as (k2 & v2 & H2).
+    { destruct (contents r) as [|[k2 v2] cl]; [cbn in Lr; lia|]. exists k2, v2. cbn; auto. }
+    exists k1, v1, k2, v2. rewrite !in_app_iff.
+    split; [auto|]. split; [auto|]. subst q. split.
+    + exact (starts_keys _ _ _ _ _ Hl Hsl H1).
+    + exact (starts_keys _ _ _ _ _ Hr Hsr H2).
+Qed.
+
+Lemma branching_unique (C : list (bytes * bytes)) q1 q2 :
+  (forall k v, In (k, v) C -> is_prefix q1 (bits_of k)) ->
+  (forall k v, In (k, v) C -> is_prefix q2 (bits_of k)) ->
+  ((exists k v, In (k, v) C /\ bits_of k = q1) \/
+   (exists k1 v1 k2 v2, In (k1, v1) C /\ In (k2, v2) C /\
+      is_prefix (q1 ++ [false]) (bits_of k1) /\ is_prefix (q1 ++ [true]) (bits_of k2))) ->
+  is_prefix q1 q2 -> q1 = q2.
+Proof.
+  intros P1 P2 B [s ->]. destruct s as [|b s]; [now rewrite app_nil_r|]. exfalso.
+  destruct B as [(k & v & Hin & Hb)|(k1 & v1 & k2 & v2 & H1 & H2 & F1 & F2)].
+  - apply P2 in Hin. apply is_prefix_len in Hin. rewrite Hb, app_length in Hin. cbn in Hin. lia.
+  - apply P2 in H1, H2.
+    assert (is_prefix (q1 ++ [b]) (bits_of k1)) as G1.
+    { eapply is_prefix_trans; [|exact H1]. exists s. now rewrite <- app_assoc. }
+    assert (is_prefix (q1 ++ [b]) (bits_of k2)) as G2.
+    { eapply is_prefix_trans; [|exact H2]. exists s. now rewrite <- app_assoc. }
+    apply is_prefix_bit in F1, F2, G1, G2. destruct b; congruence.
+Qed.
+
+Lemma canonical_at t1 : forall p t2,
+  wf_at p t1 -> wf_at p t2 -> contents t1 = contents t2 -> t1 = t2.
+Proof.
+  induction t1 as [|k1 v1|lbl1 lf1 l1 IHl r1 IHr]; intros p t2 W1 W2 E.
+  - destruct t2 as [|k2 v2|lbl2 lf2 l2 r2]; [reflexivity|discriminate|].
+    pose proof (wf_node_len _ _ _ _ _ W2) as L. rewrite <- E in L. cbn in L. lia.
+  - destruct t2 as [|k2 v2|lbl2 lf2 l2 r2]; [discriminate|cbn in E; congruence|].
+    pose proof (wf_node_len _ _ _ _ _ W2) as L. rewrite <- E in L. cbn in L. lia.
+  - destruct t2 as [|k2 v2|lbl2 lf2 l2 r2].
+    + pose proof (wf_node_len _ _ _ _ _ W1) as L. rewrite E in L. cbn in L. lia.
+    + pose proof (wf_node_len _ _ _ _ _ W1) as L. rewrite E in L. cbn in L. lia.
+    + assert (p ++ lbl1 = p ++ lbl2) as Hq.
+      { pose proof (node_branching _ _ _ _ _ W1) as B1. pose proof (node_branching _ _ _ _ _ W2) as B2.
+        cbn zeta in B1, B2.
+        assert (forall k v, In (k, v) (contents (Node lbl1 lf1 l1 r1)) -> is_prefix (p ++ lbl1) (bits_of k)) as P1
+          by (intros; eapply wf_node_keys; eauto).
+        assert (forall k v, In (k, v) (contents (Node lbl1 lf1 l1 r1)) -> is_prefix (p ++ lbl2) (bits_of k)) as P2
+          by (intros k v Hin; rewrite E in Hin; eapply wf_node_keys; eauto).
+        rewrite <- E in B2.
+        pose proof (wf_node_len _ _ _ _ _ W1) as L.
+        destruct (contents (Node lbl1 lf1 l1 r1)) as [|[k0 v0] rest] eqn:EC; [cbn in L; lia|].
+        destruct (prefix_comparable (p ++ lbl1) (p ++ lbl2) (bits_of k0)) as [Hp|Hp].
+        - eapply P1; cbn; eauto.
+        - eapply P2; cbn; eauto.
+        - eapply branching_unique; eauto.
+        - symmetry. eapply branching_unique; eauto. }
+      apply app_inv_head in Hq. subst lbl2.
+      pose proof (node_cls _ _ _ _ _ W1) as (A0 & A1 & A2).
+      pose proof (node_cls _ _ _ _ _ W2) as (B0 & B1 & B2).
+      cbn [contents] in E.
+      destruct (three_way_split _ _ _ _ _ _ _ A0 A1 A2 B0 B1 B2 E) as (E0 & E1 & E2).
+      cbn [wf_at] in W1, W2.
+      destruct W1 as (_ & Wl1 & Wr1 & _). destruct W2 as (_ & Wl2 & Wr2 & _).
+      f_equal.
+      * destruct lf1 as [[? ?]|], lf2 as [[? ?]|]; cbn in E0; congruence.
+      * eapply IHl; eauto.
+      * eapply IHr; eauto.
+Qed.
+(* ------------------------------------------------------------------ *)
+(* top-level statements                                                 *)
+(* ------------------------------------------------------------------ *)
+Lemma nil_is_prefix k : is_prefix [] k.
+Proof. now exists k. Qed.
+
+Theorem insert_wf t k v : valid_bytes k -> wf t -> wf (tinsert k v t).
+Proof. intros Hv Hw. exact (proj1 (insert_spec t [] k v Hv (nil_is_prefix _) Hw)). Qed.
+
+Theorem remove_wf t k : wf t -> wf (fst (fst (tremove k t))).
+Proof. intros Hw. exact (proj1 (remove_spec t [] k Hw)). Qed.
+
+Theorem contents_sorted t : wf t -> sorted (contents t).
+Proof. apply contents_sorted_at. Qed.
+
+Theorem insert_contents t k v :
+  valid_bytes k -> wf t -> contents (tinsert k v t) = al_set k v (contents t).
+Proof.
+  intros Hv Hw. destruct (insert_spec t [] k v Hv (nil_is_prefix _) Hw) as (W & _ & I1 & I2 & I3 & _).
+  pose proof (contents_sorted _ Hw) as S0. pose proof (contents_sorted_at _ _ W) as S1.
+  apply sorted_ext; auto using al_set_sorted.
+  intros e. rewrite al_set_in by assumption. split.
+  - intros He. destruct (I2 _ He) as [->|Hin]; [auto|].
+    destruct e as [k1 v1]. destruct (bytes_eqb k1 k) eqn:E.
+    + apply bytes_eqb_eq in E. subst k1. left. f_equal.
+      eapply sorted_key_unique; [exact S1| |]; eauto.
+    + apply bytes_eqb_neq in E. right. auto.
+  - intros [->|[Hn Hin]]; auto.
+Qed.
+
+Theorem remove_contents t k :
+  wf t ->
+  contents (fst (fst (tremove k t))) = al_del k (contents t) /\
+  snd (tremove k t) = al_get k (contents t) /\
+  snd (fst (tremove k t)) = (match al_get k (contents t) with Some _ => true | None => false end).
+Proof.
+  intros Hw. destruct (remove_spec t [] k Hw) as (W & _ & I2 & I3 & X & F & _).
+  pose proof (contents_sorted _ Hw) as S0. pose proof (contents_sorted_at _ _ W) as S1.
+  change (remove (length (@nil bool)) k t) with (tremove k t) in *. unfold ctree, cflag, cex in *.
+  assert (snd (tremove k t) = al_get k (contents t)) as Hex.
+  { destruct (snd (tremove k t)) as [v|].
+    - symmetry. now apply al_get_in.
+    - symmetry. now apply al_get_notin. }
+  repeat split.
+  - apply sorted_ext; auto using al_del_sorted.
+    intros e. rewrite al_del_in by assumption. split.
+    + intros He. apply I2 in He. tauto.
+    + intros [Hn Hin]. auto.
+  - exact Hex.
+  - rewrite F, Hex. reflexivity.
+Qed.
+
+Theorem lookup_contents t k : wf t -> tlookup k t = al_get k (contents t).
+Proof.
+  intros Hw. pose proof (lookup_spec t [] k Hw) as L.
+  change (lookup (length (@nil bool)) k t) with (tlookup k t) in L.
+  pose proof (contents_sorted _ Hw) as S0.
+  destruct (tlookup k t) as [v|].
+  - symmetry. now apply al_get_in.
+  - symmetry. now apply al_get_notin.
+Qed.
+
+Theorem canonical t1 t2 : wf t1 -> wf t2 -> contents t1 = contents t2 -> t1 = t2.
+Proof. apply canonical_at. Qed.
+
+(* ---------- operation histories ---------- *)
+Definition op_valid (o : op) : Prop :=
+  match o with OIns k _ => valid_bytes k | ORem _ => True end.
+
+Lemma apply_op_wf t o : op_valid o -> wf t -> wf (apply_op t o).
+Proof. destruct o as [k v|k]; cbn [apply_op op_valid]; intros Hv Hw; [now apply insert_wf|now apply remove_wf]. Qed.
+
+Lemma apply_op_contents t o :
+  op_valid o -> wf t -> contents (apply_op t o) = apply_op_spec (contents t) o.
+Proof.
+  destruct o as [k v|k]; cbn [apply_op op_valid apply_op_spec]; intros Hv Hw.
+  - now apply insert_contents.
+  - now apply remove_contents.
+Qed.
+
+Lemma run_from_spec ops : forall t,
+  Forall op_valid ops -> wf t ->
+  wf (fold_left apply_op ops t) /\
+  contents (fold_left apply_op ops t) = fold_left apply_op_spec ops (contents t).
+Proof.
+  induction ops as [|o ops IH]; intros t Hv Hw; cbn [fold_left]; [auto|].
+  inversion Hv as [|? ? Ho Hops]; subst.
+  destruct (IH (apply_op t o) Hops (apply_op_wf _ _ Ho Hw)) as [W C].
+  split; [exact W|]. rewrite C. now rewrite apply_op_contents.
+Qed.
+
+Theorem run_wf ops : Forall op_valid ops -> wf (run ops).
+Proof. intros Hv. apply (run_from_spec ops Nil Hv I). Qed.
+
+Theorem run_contents ops :
+  Forall op_valid ops -> contents (run ops) = fold_left apply_op_spec ops [].
+Proof. intros Hv. apply (run_from_spec ops Nil Hv I). Qed.
+
+Theorem root_depends_only_on_contents ops1 ops2 :
+  Forall op_valid ops1 -> Forall op_valid ops2 ->
+  contents (run ops1) = contents (run ops2) ->
+  run ops1 = run ops2 /\
+  hash_expr (run ops1) = hash_expr (run ops2) /\
+  forall H, root_hash H (run ops1) = root_hash H (run ops2).
+Proof.
+  intros H1 H2 E.
+  assert (run ops1 = run ops2) as Et by (apply canonical; auto using run_wf).
+  rewrite Et. auto.
+Qed.
+
+(* the same with the abstract maps: histories with equal final maps *)
+Corollary root_depends_only_on_map ops1 ops2 :
+  Forall op_valid ops1 -> Forall op_valid ops2 ->
+  fold_left apply_op_spec ops1 [] = fold_left apply_op_spec ops2 [] ->
+  forall H, root_hash H (run ops1) = root_hash H (run ops2).
+Proof.
+  intros H1 H2 E. apply root_depends_only_on_contents; auto.
+  now rewrite !run_contents.
+Qed.
+
+(* ---------- non-vacuity ---------- *)
+(* keys "", "a", "ab", "b" (empty key, prefix keys), two orders, with an
+   interleaved remove / re-insert and an overwrite *)
+Definition ex_ops1 : list op :=
+  [OIns [] [1]; OIns [97] [2]; OIns [97; 98] [3]; OIns [98] [4]].
+Definition ex_ops2 : list op :=
+  [OIns [98] [9]; OIns [97; 98] [3]; ORem [98]; OIns [97] [2]; OIns [120] [7]; OIns [98] [4];
+   ORem [120]; OIns [] [1]].
+Example ex_ops_valid : Forall op_valid ex_ops1 /\ Forall op_valid ex_ops2.
+Proof. split; repeat constructor; cbn; lia. Qed.
+Example ex_same_contents : contents (run ex_ops1) = contents (run ex_ops2).
+Proof. vm_compute. reflexivity. Qed.
+Example ex_same_tree : run ex_ops1 = run ex_ops2.
+Proof. apply root_depends_only_on_contents; [apply ex_ops_valid..|apply ex_same_contents]. Qed.
+Example ex_shape :
+  run ex_ops1 =
+  Node [] (Some ([], [1]))
+       (Node [false; true; true; false; false; false] None
+             (Node [false; true] (Some ([97], [2])) (Leaf [97; 98] [3]) Nil)
+             (Leaf [98] [4]))
+       Nil.
+Proof. vm_compute. reflexivity. Qed.
